@@ -98,7 +98,7 @@ def pool_history(rng, cid):
 
 
 def gen_cases(rng, tier):
-    n = {"quick": 4000, "thorough": 80000, "search": 20000}.get(tier, 4000)
+    n = {"quick": 2000, "thorough": 80000, "search": 12000}.get(tier, 2000)
     return [history(rng, "h%d" % i) if i % 8 else pool_history(rng, "p%d" % i) for i in range(n)]
 
 
